@@ -54,6 +54,21 @@ def corpus_recorded_then_dead():
     return out
 
 
+def corpus_release_inside_restart_step():
+    """A release time between two model times, in the step at which a file ends: the uninterrupted run releases
+    it at that step (it is in the file's last record); the restarted run must not release it again."""
+    from fractions import Fraction
+    out = []
+    for seed, numrec, rev in ((16, 2, False), (17, 3, False)):      # (the restart harness drives forward runs)
+        sc = scen.gen(seed, rev=rev, layout="sparse", numrec=numrec, period=1, nsteps=9, kills=False, continuous=False, speed=0.25, land=False,
+                      pvars=bool(seed % 2), subgrid="none", late_release=False)
+        r0 = sc["rows"][0]
+        last = numrec * 2 - 1          # last step of the second file
+        sc["rows"] = [dict(r0, step=0, mult=1), dict(r0, step=last + Fraction(1, 2), mult=2), dict(r0, step=last + 2, mult=1)]
+        out.append(sc)
+    return out
+
+
 def abs_times(f):
     """absolute record times (seconds since lab.T0) from the file's own units"""
     m = re.match(r"seconds since (.*)", f["units"])
@@ -148,6 +163,7 @@ def run(ctx: Ctx):
     c12["kill"] = {"1": [1]}
     cases.append(c12)
     cases += corpus_recorded_then_dead()
+    cases += corpus_release_inside_restart_step()
     res = pmap(run_base_and_restarts, cases)
     reqs, rmeta = [], []
     for sc, g in zip(cases, res):
